@@ -787,6 +787,22 @@ static rc::Gen<MatP2> genMatP2()
         return p;
       });
 }
+// The statement bounds the CONDITION number (<= 64), not the overall scale: orthogonal() is also exercised on
+// well-conditioned matrices scaled by 2^-30 .. 2^30 (unit conversions, pixel-to-world maps); its Newton iteration
+// needs about log2(scale) extra steps there.
+static rc::Gen<MatP2> genMatP2Wide()
+{
+  return rc::gen::map(rc::gen::tuple(genAngle(), genAngle(), genLs<2>(), rc::gen::weightedOneOf<int>({{2, pbt::range<int>(-3, 3)}, {3, pbt::range<int>(-30, 30)}}), rc::gen::arbitrary<bool>()),
+      [](const std::tuple<double, double, A2, int, bool> &t) {
+        MatP2 p;
+        p.a1 = std::get<0>(t);
+        p.a2 = std::get<1>(t);
+        p.ls = std::get<2>(t);
+        p.k = std::get<3>(t);
+        p.refl = std::get<4>(t);
+        return p;
+      });
+}
 template <int N>
 struct Built
 {
@@ -809,13 +825,13 @@ static Built<3> build(const MatP3 &p)
   b.m = rmul(rmul(rodrigues(unitAxis(p.r1.ax), angOf(p.r1.ang)), d), rodrigues(unitAxis(p.r2.ax), angOf(p.r2.ang)));
   return b;
 }
-static Built<2> build(const MatP2 &p)
+static Built<2> build(const MatP2 &p, int kmax = 3)
 {
   Built<2> b;
   RM<2> d = rzero<2>();
   b.smax = 0;
-  b.smin = 1e30L;
-  int k = p.k < -3 ? -3 : p.k > 3 ? 3 : p.k;
+  b.smin = 1e300L;
+  int k = p.k < -kmax ? -kmax : p.k > kmax ? kmax : p.k;
   for (int i = 0; i < 2; ++i) {
     L s = exp2l((L)fin(p.ls[i], -3, 3)) * ldexpl(1, k);
     b.smax = std::max(b.smax, s);
@@ -1333,11 +1349,12 @@ static void lin2_orthogonal(const MatP2 &p, pbt::Ctx &ctx)
   using LS = LSOf<TR>;
   const std::string nm = TR::name();
   const L eps = epsOf<S>();
-  Built<2> bm = build(p);
+  Built<2> bm = build(p, 30);
   const LS M = mkLS<LS>(bm.m);
   const RM<2> m = toRef(M);
   ctx.nt(!isDiagonal(m));
   ctx.label(p.refl ? "det<0 (mirror branch)" : "det>0");
+  ctx.label(std::abs(p.k) > 9 ? "overall scale beyond 2^+-9" : "overall scale within 2^+-9");
   L cond = bm.smax / bm.smin;
   ctx.label(cond < 2 ? "cond<2" : cond < 16 ? "cond 2..16" : "cond 16..64");
   // closest orthogonal matrix of a 2x2 M = U P (P s.p.d.):  M + sign(det M) cof(M) = tr(P) U  (Cayley-Hamilton),
@@ -1555,8 +1572,8 @@ static void register_part2()
   });
   reg<Rot2Case>("linear2f_rotate", 16000, g2, lin2_rotate<L2f>);
   reg<Rot2Case>("linear2d_rotate", 16000, g2, lin2_rotate<L2d>);
-  reg<MatP2>("linear2f_orthogonal", 16000, genMatP2(), lin2_orthogonal<L2f>);
-  reg<MatP2>("linear2d_orthogonal", 16000, genMatP2(), lin2_orthogonal<L2d>);
+  reg<MatP2>("linear2f_orthogonal", 16000, genMatP2Wide(), lin2_orthogonal<L2f>);
+  reg<MatP2>("linear2d_orthogonal", 16000, genMatP2Wide(), lin2_orthogonal<L2d>);
   reg<Rot3Case>("linear3f_rotate", 20000, genRot3Case(), lin3_rotate<L3f>);
   reg<Rot3Case>("linear3fa_rotate", 20000, genRot3Case(), lin3_rotate<L3fa>);
   reg<Rot3Case>("linear3d_rotate", 20000, genRot3Case(), lin3_rotate<L3d>);
